@@ -26,15 +26,32 @@ static Verdict run_c06(const Case &c)
     keys.push_back(k);
     labels.push_back("key " + hex(k));
   }
+  // the right key goes first through the same process: a wrong key must be rejected no matter what was
+  // verified before it
+  if (c.geti("right_first", 1))
+  {
+    keys.insert(keys.begin(), e.key);
+    labels.insert(labels.begin(), "the right key");
+  }
   std::vector<bytes> files(keys.size(), base);
   v.classes.push_back("kind=" + kind);
   v.classes.push_back("hmode" + std::to_string(e.hmode));
   v.weight = keys.size();
-  std::vector<DV> res = batch_dv(files, keys, e.T, e.chunk);
+  std::vector<DV> res = batch_dv(files, keys, e.T, e.chunk, e.refill);
   for (size_t i = 0; i < keys.size(); i++)
   {
     if (keys[i] == e.key)
+    {
+      const DV &rr = res[i];
+      if (rr.evaluated && rr.st == CH_OK && (!rr.vret || !rr.dret || rr.dout != e.P))
+      {
+        Verdict fl = Verdict::fail("the right key is not accepted for a valid file (harness expectation; see C01/C12)");
+        fl.infra = false;
+        fl.nontrivial = true;
+        return fl;
+      }
       continue; // not a wrong key
+    }
     const DV &r = res[i];
     if (!r.evaluated || r.st == CH_TIMEOUT)
       continue;
@@ -56,6 +73,7 @@ static Verdict run_c06(const Case &c)
       Case rc = c;
       rc.set("kind", "one");
       rc.setb("wrongkey", keys[i]);
+      rc.seti("right_first", c.geti("right_first", 1));
       fl.replay_text = rc.text();
       return fl;
     }
